@@ -16,7 +16,7 @@ import re
 from collections import Counter, defaultdict
 
 from vf import runner
-from vf.engine import Case, Failure, h
+from vf.engine import Case, Failure, h, live_first
 from vf.gen import c02 as gen
 from vf.oracle import c02_literals as lit
 from vf.project import Project
@@ -70,6 +70,7 @@ DEVIATIONS = (
     "rs-hex-fsuffix",         # rs: hex literal whose digits end in f32/f64 loses them as a "type suffix"
     "ts-hex-e",               # ts/js: a hex literal containing the digit e/E is sent to float() and dropped
 )
+DEVIATIONS = tuple(live_first("C02", DEVIATIONS))  # still-known deviations are tried first, repaired ones only classify regressions
 
 
 def _in(x, allowed) -> bool:
